@@ -246,3 +246,29 @@ Proof.
   - intros mk ob L M N. destruct (gs_store _ _ _ _ _ _ S mk ob L N) as [D|[Old _]]; [|exact Old].
     exfalso. exact (deleted_not_marker_from MARKERS_FIRST tp grace now timeout o snaps (mkG 0 st []) mk D M).
 Qed.
+
+(* ------------------------------------------------------------------ partial decodes are never trusted *)
+(* a file whose Avro stream yields some records and then fails (damaged later record / block / sync marker, or a read
+   error mid-stream) is never read as the records decoded so far, whatever else the oracle does *)
+Lemma read_one_partial : forall w o g k ob decoded caught,
+  lookup k (g_store g) = Some ob -> body ob = CPartialAvro decoded caught -> fst (read_one w o g k) = None.
+Proof.
+  intros w o g k ob decoded caught L B. destruct (read_one w o g k) as [[xs|] g'] eqn:E; [|reflexivity].
+  exfalso. apply read_one_sound in E. destruct E as [H _].
+  assert (X: exists ob', lookup k (g_store g) = Some ob' /\ as_w w (body ob') = Some xs) by (destruct w; exact H).
+  destruct X as [ob' [L' B']]. rewrite L in L'. inversion L'; subst ob'. rewrite B in B'. destruct w; discriminate.
+Qed.
+
+Theorem partial_decode_aborts : forall (tp : string) (grace now timeout : Z) (o : oracle) (snaps : list string) (st : store)
+    (k : key) (ob : obj) (decoded : list string) (caught : bool),
+  wf_store snaps st -> lookup k st = Some ob -> body ob = CPartialAvro decoded caught ->
+  ref_list snaps k \/ ref_manifest snaps st k ->
+  (forall w o' g, g_store g = st -> fst (read_one w o' g k) = None)
+  /\ aborted_before_sweep (gc_run tp grace now timeout o snaps st) /\ r_deleted (gc_run tp grace now timeout o snaps st) = [].
+Proof.
+  intros tp grace now timeout o snaps st k ob decoded caught W L B R. split.
+  - intros w o' g S. eapply read_one_partial; eauto. rewrite S. exact L.
+  - apply (damage_aborts tp grace now timeout o snaps st k W). destruct R as [R|R]; [left|right]; (split; [exact R|]).
+    + unfold damaged_list. rewrite L, B. reflexivity.
+    + unfold damaged_manifest. rewrite L, B. reflexivity.
+Qed.
